@@ -45,6 +45,8 @@ def run(ctx: Context) -> None:
     from . import infra as _infra
     _infra.lookup_namespace(ctx, 'R13.7', ['depth_coordinates', 'depth_coordinate'])
     _infra.live_depth_coordinates(ctx, 'R13.7')
+    _infra.bounds_excluded(ctx, 'R13.7', 'emsarray.conventions._base.Convention.depth_coordinates', "depth coordinate discovery")
+    _infra.bounds_names_helper(ctx, 'R13.7')
     ctx.assume("xarray Dataset.copy() gives independent attribute dictionaries and variables; assign/assign_coords/isel return new datasets")
 
     fi = ctx.func(f"{DEPTH}.normalize_depth_variables")
@@ -504,6 +506,7 @@ VARIANTS = [
     V('C13', 'always-reverse', _D, "            if data_deep_to_shallow != deep_to_shallow:\n                new_dataset", "            if True:\n                new_dataset", 'R13.5'),
     V('C13', 'flip-when-unset', _D, "        if positive_down is not None and data_positive_down != positive_down:", "        if data_positive_down != bool(positive_down):", 'R13.5'),
     V('C13', 'up-down-swapped', _D, "'down' if positive_down else 'up'", "'up' if positive_down else 'down'", 'R13.5'),
+    V('C13', 'depth-bounds-listed-as-coordinates', 'src/emsarray/conventions/_base.py', "            if name in bounds_names:\n                # The bounds of a depth coordinate can carry the same attributes\n                continue\n", "", 'R13.7'),
     V('C13', 'wrapper-drops-option', 'src/emsarray/conventions/_base.py', "            positive_down=positive_down, deep_to_shallow=deep_to_shallow)", "            positive_down=positive_down)", 'R13.6'),
     # benign
     V('C13', 'benign-unary-minus', _D, "            new_values = -1 * new_variable.values", "            new_values = -new_variable.values", None),
